@@ -553,6 +553,13 @@ def run(ctx: Ctx) -> None:
     if ctx.quick:
         hs = [h for d in range(1, depth + 1)
               for h in itertools.product(OPS, repeat=d)]
+        # plus every history of four operations whose first three do not
+        # evaluate (mode switches, initialize, the optimizer's patch) and
+        # whose last one observes: evaluate(x) or get_differentials()
+        quiet_ops = [o for o in OPS if o[0] not in ("ev", "diff")]
+        observers = [o for o in OPS if o[0] in ("ev", "diff")]
+        hs += [h + (o,) for h in itertools.product(quiet_ops, repeat=3)
+               for o in observers]
         jobs = [(name, ch) for name in configs
                 for ch in chunks(hs, max(1, ctx.jobs * 2 // len(configs)
                                          + 1))]
